@@ -1,5 +1,5 @@
 use crate::{
-    error::{ComputeError, ExecError, MemoryError, OpError, OpResult},
+    error::{ComputeError, ExecError, MemoryError, OpError, OpResult, OutOfGasError},
     Access, Gas, GasLimit, LazyCache, Memory, Op, OpAccess, OpGasCost, Repeat, Stack, StateReads,
     Vm,
 };
@@ -131,6 +131,15 @@ where
     // Process compute program results.
     let (pc, total_gas, halt) = compute_effects(memory, pc, halt, oks)?;
 
+    // Together the compute programs must stay within the gas they were given.
+    let total_gas = total_gas
+        .filter(|&total| total <= gas_limit.total)
+        .ok_or(OutOfGasError {
+            spent: 0,
+            op_gas: total_gas.unwrap_or(Gas::MAX),
+            limit: gas_limit.total,
+        })?;
+
     parent_memory.pop();
 
     Ok((pc, total_gas, halt))
@@ -139,14 +148,15 @@ where
 // Allocates the resulting memories from compute programs to the parent VM memory.
 // Updates parent VM program counter to the largest pc returned from the compute programs.
 //
-// Returns maximum program counter and total gas spent in compute programs.
+// Returns maximum program counter and total gas spent in compute programs
+// (`None` if the total does not fit in `Gas`).
 fn compute_effects(
     memory: &mut Memory,
     mut pc: usize,
     mut halt: bool,
     compute_results: Vec<(Gas, usize, Memory, bool)>,
-) -> Result<(usize, Gas, bool), MemoryError> {
-    let mut total_gas = 0;
+) -> Result<(usize, Option<Gas>, bool), MemoryError> {
+    let mut total_gas: Option<Gas> = Some(0);
 
     let mut memory_to_alloc = 0;
     compute_results
@@ -159,7 +169,7 @@ fn compute_effects(
     // concat compute memories to parent memory one by one
     compute_results.iter().for_each(|(gas, c_pc, mem, h)| {
         pc = std::cmp::max(pc, *c_pc);
-        total_gas += gas;
+        total_gas = total_gas.and_then(|total| total.checked_add(*gas));
         memory.store_range(memory_pointer, mem).expect("for now");
         memory_pointer += mem.len().unwrap();
         halt |= h;
